@@ -46,15 +46,40 @@ def _max_to_cond(e):
     return e
 
 
+def instance_attrs(prog, cls):
+    """attribute -> (E of its value in terms of constructor parameters, verbatim?) from __init__,
+    plus literal class-level constants"""
+    out = {}
+    for k in reversed(prog.mro(cls)):
+        for name, node in k.attrs.items():
+            if isinstance(node, ast.Constant) and isinstance(node.value, (int, float)) and not isinstance(node.value, bool):
+                out["self." + name] = (S.lift(Fraction(repr(node.value)) if isinstance(node.value, float) else node.value), True, node)
+    init = prog.find_method(cls, "__init__")
+    if init is not None and init.cls is not None and init.cls.name != "AliasedFactory":
+        ev = SymEval(prog, init, inline_props=False).run()
+        for key, val in ev.env.items():
+            if key.startswith(init.params[0] + ".") and isinstance(val, S.E):
+                verbatim = val.op == "sym" and val.args[0] in init.params
+                out["self." + key.split(".", 1)[1]] = (val, verbatim, init.node)
+    return out
+
+
 def extract(prog, cls, meth, argname):
     f = prog.own_method(cls, meth)
-    ren = {"self.low_hz": "low_hz", "self.slope_hz": "slope_hz"}
+    ren = {}
     ev = SymEval(prog, f, rename=ren, args={f.params[1]: S.sym(argname)}, inline_props=False).run()
     if not ev.returns:
         raise AnalysisError("%s.%s has no return" % (cls.name, meth))
     val = None
     for guard, v, _ in reversed(ev.returns):
         val = v if val is None else S.cond(guard, v, val)
+    attrs = instance_attrs(prog, cls)
+    m = {}
+    for x in S.walk(val):
+        if x.op == "sym" and x.args[0] in attrs:
+            m[x.args[0]] = attrs[x.args[0]][0]
+    if m:
+        val = S.subst(val, m)
     val = RF.norm_pow2(val)
     # the positive constant K = max(1e-10, low_hz) of the octave scale stays one symbol
     m = {}
@@ -112,6 +137,7 @@ def run(ctx):
     for c in classes:
         ctx.rule(one_class, c)
     ctx.rule(octave_validation)
+    ctx.rule(no_derived_state)
     ctx.info["exhaustive"] = False
 
 
@@ -212,3 +238,31 @@ def octave_validation(ctx, R="R-C19/OctaveScaling/validation"):
         len(first.body) == 1 and isinstance(first.body[0], ast.Raise) and astq.raise_type(prog, init, first.body[0]) == "ValueError"
     ctx.check(ok, R, init, first if first is not None else init.node, "OctaveScaling rejects low_hz <= 0 with ValueError before storing it",
               "OctaveScaling.__init__ does not start with `if low_hz <= 0: raise ValueError`")
+
+
+def no_derived_state(ctx, R="R-C19/no-derived-state"):
+    """The parameters of a scaling function are public, assignable attributes (documented as
+    such); both maps must read them directly.  An attribute *computed* from a parameter in
+    __init__ goes stale when the parameter is re-assigned, and the two maps stop being inverses."""
+    prog = ctx.prog
+    for c in [k for k in prog.subclasses(prog.cls("scales.ScalingFunction")) if prog.is_concrete(k)]:
+        attrs = instance_attrs(prog, c)
+        for meth in ("hertz_to_scale", "scale_to_hertz"):
+            f = prog.own_method(c, meth)
+            for n in f.body_nodes():
+                if astq.is_self_attr(n, f.params[0]) and isinstance(n.ctx, ast.Load):
+                    key = "self." + n.attr
+                    if key in attrs:
+                        val, verbatim, where = attrs[key]
+                        ctx.check(verbatim or val.is_const, R, f, n,
+                                  "%s.%s reads self.%s, which is a constructor parameter stored verbatim (or a class constant)" % (c.name, meth, n.attr),
+                                  "%s.%s reads self.%s = %s, a value derived from a constructor parameter when the object is built; re-assigning the "
+                                  "public parameter afterwards leaves it stale, so hertz_to_scale and scale_to_hertz use different anchors"
+                                  % (c.name, meth, n.attr, S.show(val)[:80]))
+        for f in c.methods.values():
+            if f.name in ("__init__",):
+                continue
+            for attr, kind, node in __import__("pdsa.rules.c04", fromlist=["attr_writes"]).attr_writes(f):
+                ctx.bad(R, f, node, "%s.%s writes self.%s: a scaling function must be a pure function of its parameters" % (c.name, f.name, attr),
+                        "scaling functions keep no mutable state")
+    ctx.ok(R, "src/pydrobert/speech/scales.py", "no scaling function method writes instance state")
